@@ -124,8 +124,27 @@ func H_C16_fc() {
 	// any sequence of replacements through the Weights() pointers followed by Forward: replace again,
 	// through the pointers obtained BEFORE the last Forward, and evaluate once more
 	we2, be2 := elems("w2", O), elems("b2", O)
-	*ws[0].Value = fromFlat(we2, []int{O}, true)
-	*ws[1].Value = fromFlat(be2, []int{O}, true)
+	if vrt.ParamOr("repl", 0) == 1 {
+		// the way a training loop replaces them: computed from the spent (back-propagated) parameter,
+		// then reset to a fresh tracked leaf
+		for i, e2 := range [][]float64{we2, be2} {
+			old := *ws[i].Value
+			oe := vrt.Flat(old)
+			diff := make([]float64, O)
+			for o := range diff {
+				diff[o] = e2[o] - oe[o]
+			}
+			nw, err := old.Add(fromFlat(diff, []int{O}, false))
+			if err != nil {
+				vrt.Assume(false)
+			}
+			nw.ResetGradContext(true)
+			*ws[i].Value = nw
+		}
+	} else {
+		*ws[0].Value = fromFlat(we2, []int{O}, true)
+		*ws[1].Value = fromFlat(be2, []int{O}, true)
+	}
 	B1 := B
 	B = vrt.Concretize(vrt.Int("B2", 1, vrt.Param("maxb"))) // the second batch has its own size
 	_ = B1
@@ -226,6 +245,11 @@ func H_C17_update() {
 		want[k] = we[k] - lr*ge[k]
 	}
 	checkTensor("SGD w - lr*g", ptr, dims, want)
+	scale := make([]float64, len(want))
+	for k := range scale {
+		scale[k] = absF(we[k]) + absF(lr*ge[k])
+	}
+	checkTensorS("SGD w - lr*g (at the magnitude of the operands)", ptr, dims, want, scale)
 	vrt.Assert("the pointer addresses a new tensor", ptr != old)
 	checkTensor("previous tensor unchanged", old, dims, we)
 	vrt.Assert("previous tensor keeps its gradient object", old.Gradient() == oldGrad)
